@@ -173,6 +173,7 @@ package dns
 //@   assert at "dh.Qdcount = uint16(len(dns.Question))" hdrid: dh.Id == dns.Id [C01]
 // RFC 1035 4.1.1: the four 16-bit counts say how many entries each section has (a section of 65536 or more entries
 // has no header encoding: packing must not succeed with a count that wrapped around)
+//@   assert at "too many records in a section" toomany: len(dns.Question) > 65535 || len(dns.Answer) > 65535 || len(dns.Ns) > 65535 || len(dns.Extra) > 65535 [C01]
 //@   assert at "off := 0" counts: dh.Qdcount == len(dns.Question) && dh.Ancount == len(dns.Answer) && dh.Nscount == len(dns.Ns) && dh.Arcount == len(dns.Extra) [C01]
 //@   assert at "off := 0" slack: len(msg) >= uncompressedLen + 1 [C08]
 //@   ensures hdr12: ret1 == nil ==> len(ret0) >= 12
